@@ -35,7 +35,7 @@ abbrev ModId := Nat
 
 /-- what a name is bound to: a lena module, or an object the resolver knows nothing about -/
 inductive Val where
-  | opaque
+  | obj
   | mod (m : ModId)
   deriving DecidableEq, Repr, Inhabited
 
@@ -131,12 +131,12 @@ structure State where
 
 def decodeVal : Nat → Option Val
   | 0 => none
-  | 1 => some .opaque
+  | 1 => some .obj
   | c + 2 => some (.mod c)
 
 def encodeVal : Option Val → Nat
   | none => 0
-  | some .opaque => 1
+  | some .obj => 1
   | some (.mod c) => c + 2
 
 def decodeStatus : Nat → Status
@@ -162,12 +162,16 @@ def slotIx (F : Facts) (m : ModId) (n : Name) : Nat := F.slotBits * (m * F.nName
 def rawGet (F : Facts) (σ : State) (m : ModId) (n : Name) : Nat :=
   (σ.slots >>> slotIx F m n) &&& (2 ^ F.slotBits - 1)
 
-/-- `module m .__dict__.get(n)` -/
-def get (F : Facts) (σ : State) (m : ModId) (n : Name) : Option Val := decodeVal (rawGet F σ m n)
+/-- `module m .__dict__.get(n)` (a name outside the row is never bound) -/
+def get (F : Facts) (σ : State) (m : ModId) (n : Name) : Option Val :=
+  if Nat.blt n F.nNames then decodeVal (rawGet F σ m n) else none
 
-/-- `module m .__dict__[n] = v` (`none`: `del`) -/
+/-- `module m .__dict__[n] = v` (`none`: `del`); a name or value that does not fit the layout is
+not stored (`Facts.layoutOk` says that everything fits) -/
 def set (F : Facts) (σ : State) (m : ModId) (n : Name) (v : Option Val) : State :=
-  { σ with slots := σ.slots ^^^ ((rawGet F σ m n ^^^ encodeVal v) <<< slotIx F m n) }
+  if Nat.blt n F.nNames && Nat.blt (encodeVal v) (2 ^ F.slotBits) then
+    { σ with slots := σ.slots ^^^ ((rawGet F σ m n ^^^ encodeVal v) <<< slotIx F m n) }
+  else σ
 
 def statusOf (σ : State) (m : ModId) : Status := decodeStatus ((σ.status >>> (2 * m)) &&& 3)
 
@@ -248,13 +252,13 @@ def lookupScope (F : Facts) (σ : State) (sc : Scope) (loc : Ns) (n : Name) : Op
   | none =>
     match σ.get F sc.mod n with
     | some v => some v
-    | none => if F.isBuiltin n then some .opaque else none
+    | none => if F.isBuiltin n then some .obj else none
 
 /-- follow `v.a.b.c`: `none` if every attribute is there (or the value is opaque), else the
 module and the attribute it lacks -/
 def walk (F : Facts) (σ : State) : Val → List Name → Option (ModId × Name)
   | _, [] => none
-  | .opaque, _ => none
+  | .obj, _ => none
   | .mod p, a :: r =>
     match σ.get F p a with
     | none => some (p, a)
@@ -317,11 +321,15 @@ def execEvs (F : Facts) (imp : ModId → State → Except Err State) (sc : Scope
   | ev :: rest, saved, loc, σ =>
     match ev with
     | .bind n =>
-      match bindIn F sc loc σ n .opaque with
+      match bindIn F sc loc σ n .obj with
       | (σ', loc') => σ'.force (fun s => execEvs F imp sc rest saved loc' s)
     | .bindMod n m =>
-      match bindIn F sc loc σ n (.mod m) with
-      | (σ', loc') => σ'.force (fun s => execEvs F imp sc rest saved loc' s)
+      -- an import statement binds its module after the import: the module is in `sys.modules`
+      match σ.statusOf m with
+      | .absent => .error .malformed
+      | _ =>
+        match bindIn F sc loc σ n (.mod m) with
+        | (σ', loc') => σ'.force (fun s => execEvs F imp sc rest saved loc' s)
     | .unbind n =>
       if sc.fn.isSome then
         match lookup n loc with
